@@ -23,4 +23,16 @@ func ConfigureStubs(in *gosym.Interp) {
 	in.Redirect["os/exec.Command"] = "vstubCommand"
 	in.Redirect["(*os/exec.Cmd).Run"] = "vstubCmdRun"
 	in.Redirect["os.Exit"] = "vstubExit"
+	// disasm
+	d := Module + "/cmd/seccomp-profiler/disasm"
+	in.Redirect["os.Open"] = "vstubOpen"
+	in.Redirect["(*os.File).Close"] = "vstubFileClose"
+	in.Redirect["bufio.NewReader"] = "vstubNewReader"
+	in.Redirect["bufio.NewScanner"] = "vstubNewScanner"
+	in.Redirect["(*bufio.Scanner).Scan"] = "vstubScan"
+	in.Redirect["(*bufio.Scanner).Text"] = "vstubText"
+	in.Redirect["(*bufio.Scanner).Err"] = "vstubScanErr"
+	in.Redirect[d+".findSyscallNum"] = "vstubFindSyscallNum"
+	in.Summarize[d+".isSyscallFunction"] = true
+	in.Summarize["(*"+d+".parser).isRawSyscall"] = true
 }
